@@ -4,7 +4,9 @@ import PyramidModel.TopoSort
 in : {"first":n,"last":n,"defBefore":null|[…],"defAfter":null|[…],"ops":[[name, after|null, before|null],…],
       "explicit":[…]}            (explicit = explicit tween list, may be empty)
 out: {"result":{"ok":[…]}|{"unsatBefore":[…]}|{"unsatAfter":[…]}|{"cyclic":[…]}, "names":[…],
-      "trace":[…]}              trace of the composed handler: n>=0 enter n, -(n+1) exit n, "core" = 1000000 -/
+      "trace":[…]}              trace of the composed handler: n>=0 enter n, -(n+1) exit n, "core" = 1000000
+with "hops":[["add",n,after|null,before|null] | ["remove",n] | ["sorted"], …] ("ops" may be []) instead:
+out: {"replies":[ "added" | "removed" | "absent" | {"result":…,"names":[…]} , … ], "names":[…final…]} -/
 open Pyr Pyr.Topo Lean
 
 def optList (j : Json) : Except String (Option (List Nat)) :=
@@ -26,6 +28,35 @@ def evJson : Ev → Json
 
 def sortedArr (l : List Nat) : Json := toJson (l.toArray.qsort (· < ·))
 
+def resJson : SortResult → Json
+  | .ok ns => Json.mkObj [("ok", toJson ns)]
+  | .unsatBefore w => Json.mkObj [("unsatBefore", sortedArr w)]
+  | .unsatAfter w => Json.mkObj [("unsatAfter", sortedArr w)]
+  | .cyclic l => Json.mkObj [("cyclic", sortedArr l)]
+
+/-- one call of a history: ["add", name, after|null, before|null] | ["remove", name] | ["sorted"] -/
+def parseHOp (j : Json) : Except String HOp :=
+  match j with
+  | .arr #[.str "add", n, a, b] => do
+    let name : Nat ← fromJson? n
+    pure (.add { name := name, after := ← optList a, before := ← optList b })
+  | .arr #[.str "remove", n] => do
+    let name : Nat ← fromJson? n
+    pure (.remove name)
+  | .arr #[.str "sorted"] => pure .query
+  | _ => throw "bad history op"
+
+/-- replies of a history, one per call: add ↦ "added", remove ↦ "removed" / "absent" (the real call raises
+ValueError), sorted ↦ {"result": …, "names": …} of the state at that point -/
+def historyReplies (s : Sorter) : List HOp → List Json
+  | [] => []
+  | op :: rest =>
+    let here : Json := match op with
+      | .add _ => "added"
+      | .remove n => if (s.removeOp n).2 then "removed" else "absent"
+      | .query => Json.mkObj [("result", resJson s.sorted), ("names", toJson s.names)]
+    here :: historyReplies (op.step s) rest
+
 def main : IO Unit := jsonDriver fun j => do
   let first : Nat ← getAs j "first"
   let last : Nat ← getAs j "last"
@@ -37,6 +68,12 @@ def main : IO Unit := jsonDriver fun j => do
     | _ => throw "bad ops"
   let explicit : List Nat ← getAs j "explicit"
   let s0 : Sorter := { defBefore := dB, defAfter := dA, first := first, last := last }
+  match j.getObjVal? "hops" with
+  | .ok (.arr hs) =>
+    let hops ← hs.toList.mapM parseHOp
+    return Json.mkObj [("replies", Json.arr (historyReplies s0 hops).toArray),
+      ("names", toJson (hops.foldl HOp.step s0).names)]
+  | _ => pure ()
   let s := s0.addAll ops
   let r := s.sorted
   let (res, implicit) : Json × List Nat := match r with
